@@ -108,8 +108,17 @@ def features_strategy(draw, tier):
             "derive_sel": [draw(st.integers(0, 10 ** 6)), draw(st.integers(0, 10 ** 6))]}
 
 
-def _measure_everything(tree):
+def _measure_everything(tree, lm=None):
     """Touch every morphometric of `tree` once (whatever it caches is now cached)."""
+    if lm is not None:
+        soma = int(tree.type()[0]) == 1
+        for nd in tree:
+            lm.path_distance(nd), lm.branch_order(nd), lm.terminal_degree(nd)
+            if soma:
+                lm.euc_distance(nd)
+            if len(nd.children()) == 2:
+                lm.partition_asymmetry(nd)
+        lm.n_stems(tree), lm.n_bifs(tree), lm.n_tips(tree), lm.n_branch(tree)
     from swcgeom.analysis import extract_feature
     from swcgeom.analysis.features import BranchFeatures, FurcationFeatures, NodeFeatures, PathFeatures, TipFeatures
 
@@ -124,13 +133,13 @@ def _measure_everything(tree):
         nf.get_radial_distance(), nf.get_branch_order()
 
 
-def _derive(case, ctx, t, tree):
+def _derive(case, ctx, t, tree, lm=None):
     """Returns (table of the derived tree, derived tree)."""
     from swcgeom.core import Tree, cat_tree, redirect_tree, sort_tree
 
     how, sel = case["derive"], case["derive_sel"]
     n = len(t["parents"])
-    ctx.lib("measuring-the-source-tree", _measure_everything, tree)
+    ctx.lib("measuring-the-source-tree", _measure_everything, tree, lm)
     if how == "redirect":
         k = sel[0] % n
         if t["type"][k] != t["type"][0]:
@@ -427,7 +436,10 @@ def lmeasure_strategy(draw, tier):
                                     soma_root=True, distinct_points=True, mag=200.0))
     else:
         t = draw(gen_tree.tree_case(min_abs=2.0 ** -10, min_n=1, max_n=max_n, soma_root=True, mag=200.0))
-    return {"tree": t, "binary": binary}
+    return {"tree": t, "binary": binary,
+            # measured after the tree it was derived from (the same LMeasure object measures both)
+            "derive": draw(st.sampled_from([None, None, None, "redirect", "sort", "copy-reparent"])),
+            "derive_sel": [draw(st.integers(0, 10 ** 6)), draw(st.integers(0, 10 ** 6))]}
 
 
 def _cos(a, b):
@@ -441,9 +453,12 @@ def run_lmeasure(case, ctx):
     parents = t["parents"]
     n = len(parents)
     tree = gen_tree.build_tree(t)
+    lm = LMeasure()
+    if case.get("derive"):
+        t, tree = _derive(case, ctx, t, tree, lm)
+        parents = t["parents"]
     R = _ref(t)
     P, ch, root = R["P"], R["ch"], R["root"]
-    lm = LMeasure()
     tol = _tol(R["scale"])
     nfurc = sum(1 for c in ch if len(c) >= 2)
     n_bif2 = sum(1 for c in ch if len(c) == 2)
@@ -588,7 +603,7 @@ SUBCHECKS = [
         required={"root-off-origin": 200, "rmax>0": 300, "sholl-object-made-with-the-deprecated-step-argument": 100,
                   "front-end:same-feature-twice-in-one-request": 100}),
     Sub("lmeasure", lmeasure_strategy, run_lmeasure, quick=1500, thorough=16000, shards_quick=4,
-        required={"binary": 100, "general": 100, "bifurcations>=2": 50}),
+        required={"binary": 100, "general": 100, "bifurcations>=2": 50, "measured-tree-derived-from-a-measured-tree": 300}),
     Sub("population", population_strategy, run_population, quick=400, thorough=3000, shards_quick=4,
         required={"differing-sizes": 40, "population:1": 5, "same-feature-asked-again-with-other-arguments": 40}),
 ]
